@@ -6,6 +6,8 @@ func init() {
 			"byte identity of re-rendered JSON, value-level fidelity, union member selection, list ordering.")
 		ruleTablesJSON(c, r)
 		ruleTablesLeafList(c, r)
+		ruleFloatFmt(c, r, c.funcsInScope(func(s string) bool { return s == "ygot/render.go" }, libPkgs))
+		ruleEnumLib(c, r)
 	})
 	register("C02", func(c *Ctx, r *Report) {
 		r.Decides("gNMI scalar wrapper produced per YANG kind is accepted by the decoder; every key kind has a string form and both parsers; every leaf-list element kind is encodable.",
@@ -154,5 +156,25 @@ func init() {
 		ruleRFC7951Encodings(c, r)
 		ruleTablesJSON(c, r)
 		ruleSignConv(c, r, c.anchored("C19"), 0)
+	})
+}
+
+func init() {
+	register("C17", func(c *Ctx, r *Report) {
+		r.Decides("enumFieldToString treats exactly 0 as UNSET, returns names only after successful ΛMap lookups and errors on unknown values; castToEnumValue uses the type's own ΛMap per call, no package-level state, and compares names modulo module prefix on both sides; castToEnumValue's map loop returns a single result shape.",
+			"name uniqueness within each generated enum type for schemas outside the repository's golden corpus; int64-exhaustive behaviour.")
+		ruleEnumLib(c, r)
+		r.Rule("R-MAPRANGE-RETURN", "a range over a map returns at most one distinct constant result from inside the loop", 0)
+		ruleMapRangeReturnFile(c, r, "ytypes", "util_types.go")
+	})
+	register("C20", func(c *Ctx, r *Report) {
+		r.Decides("three panic classes over everything statically reachable from the nine entry points: unchecked single-result type assertions, comparisons of possibly-uncomparable interface values, reflective calls with unchecked arity; plus no explicit panic().",
+			"index/slice bounds, nil dereferences, panics inside reflect for invalid Values (e.g. Interface() on a zero Value), panics inside dependencies.")
+		fs := c.entryReach(r, c20Entries...)
+		c.stats["functions_analysed"] = len(fs)
+		ruleAssert(c, r, fs)
+		ruleIfaceEq(c, r, fs)
+		ruleCallArity(c, r, fs)
+		ruleNoPanicCalls(c, r, fs)
 	})
 }
